@@ -186,7 +186,7 @@ func (t *tr) expr(e ast.Expr) string {
 		fn := exprText(x.Fun)
 		if l, ok := t.k.Calls[fn]; ok {
 			if strings.HasPrefix(l, "&") {
-				parts := strings.SplitN(strings.TrimPrefix(l, "&"), "|", 2)
+				parts := strings.SplitN(strings.TrimLeft(l, "&"), "|", 2)
 				if len(parts) != 2 {
 					panic("malformed effectful call mapping " + l)
 				}
@@ -362,10 +362,13 @@ func (t *tr) hoist(e ast.Expr, ind string) string {
 	ast.Inspect(e, func(n ast.Node) bool {
 		if ce, ok := n.(*ast.CallExpr); ok {
 			if l, ok := t.k.Calls[exprText(ce.Fun)]; ok && strings.HasPrefix(l, "&") {
-				parts := strings.SplitN(strings.TrimPrefix(l, "&"), "|", 2)
+				noArgs := strings.HasPrefix(l, "&&") // "&&f|v": the call's arguments are not modelled
+				parts := strings.SplitN(strings.TrimLeft(l, "&"), "|", 2)
 				args := []string{}
 				for _, a := range ce.Args {
-					args = append(args, t.expr(a))
+					if !noArgs {
+						args = append(args, t.expr(a))
+					}
 				}
 				pre += fmt.Sprintf("%slet %s_pre := %s;\n%slet %s := (%s %s);\n", ind, t.k.State, t.k.State, ind, t.k.State, parts[0], strings.Join(append([]string{t.k.State + "_pre"}, args...), " "))
 			}
@@ -497,7 +500,11 @@ func (t *tr) stmts(ss []ast.Stmt, k func() string, ind string) string {
 		}
 		return t.assign(lhs, rhs, ind) + cont()
 	case *ast.ReturnStmt:
-		return t.ret(x, ind)
+		pre := ""
+		for _, r := range x.Results {
+			pre += t.hoist(r, ind)
+		}
+		return pre + t.ret(x, ind)
 	case *ast.IfStmt:
 		pre := ""
 		if x.Init != nil {
